@@ -49,6 +49,14 @@ def run(ctx):
     ctx.floor('L-CSTR', 6)
 
 
+def _defaults(fn):
+    """parameter -> default text (annotations are not part of it)"""
+    pos = fn.args.posonlyargs + fn.args.args
+    out = {a.arg: U(d) for a, d in zip(pos[len(pos) - len(fn.args.defaults):], fn.args.defaults)}
+    out.update({a.arg: U(d) for a, d in zip(fn.args.kwonlyargs, fn.args.kw_defaults) if d is not None})
+    return out
+
+
 def check_int24(ctx, w):
     tree = w.model.tree(CU)
     packers = {}
@@ -209,7 +217,7 @@ def check_repeat(ctx, w):
     cs = [n for n in tree.body if isinstance(n, ast.FunctionDef) and n.name == 'CString'][0]
     src = U(cs)
     ctx.ob('L-REP', 'construct/macros.py:CString', 'single characters until a terminator', 'RepeatUntil(lambda obj, ctx: obj in terminators, char_field)' in src and
-           "terminators: bytes=b'\\x00'" in src and 'char_field: Construct=Field(None, 1)' in src, got=src[:150])
+           _defaults(cs).get('terminators') == "b'\\x00'" and _defaults(cs).get('char_field') == 'Field(None, 1)', got=src[:150])
     h = w.model.func('dwarf/structs.py', 'DWARFStructs._make_block_struct')
     got = [expr.nfs(r.value, expr.FEnv(h.node, params=('length_field',))) for r in expr.returns_of(h.node)]
     ctx.ob('L-REP', h.construct, 'block = length field + that many bytes', got == ["PrefixedArray(subcon=Dwarf_uint8(self,'elem'),length_field=length_field(''))"], got=got)
